@@ -105,6 +105,16 @@ impl Callback for CsvDump {
     }
 
     fn on_complete(&mut self, block_height: u64) -> Result<()> {
+        // Make sure everything is on disk before the files get their final names
+        for writer in [
+            &mut self.block_writer,
+            &mut self.tx_writer,
+            &mut self.txin_writer,
+            &mut self.txout_writer,
+        ] {
+            writer.flush()?;
+        }
+
         // Keep in sync with c'tor
         for f in ["blocks", "transactions", "tx_in", "tx_out"] {
             // Rename temp files
